@@ -187,7 +187,7 @@ def c01_exit(S, sess, verb, wname):
         ctx.check(f"{wname}/exit:sent-exactly-the-file-from-the-restart-offset", w.written == want, info=T1)
     else:
         want_mode_ok = z3.If(off != 0, z3.BoolVal(fh.mode == "r+b"), z3.BoolVal(fh.mode == ("wb" if verb == "stor" else "ab")))
-        ctx.check(f"{wname}/exit:open-mode-is-wb-ab-or-r+b-exactly-when-restarting", want_mode_ok, info=T1)
+        ctx.check(f"{wname}/exit:open-mode-is-wb-ab-or-r+b-exactly-when-restarting", want_mode_ok, info={"props": ["C01", "C18"]})
         payload = sess.payload
         ctx.check(f"{wname}/exit:whole-payload-consumed", z3.And(r.incoming == z3.StringVal(""), r.consumed == payload), info=T1)
         n = z3.Length(fh.before)
@@ -215,7 +215,7 @@ from pyvc.core import as_int  # noqa: E402
 
 def define_worker_units():
     for verb, (meth, wq) in WORKERS.items():
-        c = contract(SERVER, f"Server.{meth}", props=["C12", "C13", "C14", "C05", "C16", "C04", "C03", "C17", "C01"], name=f"{wq.split('.')[-1]}@{verb}")
+        c = contract(SERVER, f"Server.{meth}", props=["C12", "C13", "C14", "C05", "C16", "C04", "C03", "C17", "C01", "C18"], name=f"{wq.split('.')[-1]}@{verb}")
         c.setup = make_worker_setup(verb, meth, "SEQ")
         c.uses = [(SERVER, "Server.get_paths#opaque"), (SERVER, "User.get_permissions#summary")]
         c.cancellable = True
